@@ -62,6 +62,25 @@ ASCII_CLASS = {
 }
 
 
+_UNI = None
+
+
+def uni_table():
+    """{property: set of characters} from build/uni_table.tsv (written by corpus.ensure_uni_table from pest's tables)."""
+    global _UNI
+    if _UNI is None:
+        _UNI = {}
+        path = os.environ.get("VERIF_UNI_TABLE") or os.path.join(BUILD, "uni_table.tsv")
+        if hasattr(corpus, "ensure_uni_table") and not os.path.exists(path):
+            path = corpus.ensure_uni_table()
+        if os.path.exists(path):
+            for line in open(path):
+                f = line.rstrip("\n").split("\t")
+                if len(f) == 2 and not f[0].startswith("#"):
+                    _UNI[f[0]] = set(corpus.unhex(f[1]))
+    return _UNI
+
+
 class Peg:
     """Reference PEG semantics of a pest grammar over the S-expressions of `dump_ast`."""
 
@@ -167,6 +186,12 @@ class Peg:
                 st = ()
         elif name in ("WHITESPACE", "COMMENT"):
             p = None
+        elif name in uni_table():
+            # pest's own Unicode tables restricted to corpus.UNI_ALPHABET (external data); other characters: undecided
+            r = self.char_at(pos)
+            if r and chr(r[0]) not in corpus.UNI_ALPHABET:
+                raise Unsupported(name + " outside the table's alphabet")
+            p = r[1] if r and chr(r[0]) in uni_table()[name] else None
         else:
             raise Unsupported(name)
         return None if p is None else (p, st)
@@ -605,8 +630,24 @@ def case_dict(c):
 
 
 def fws(ginfo):
-    from .props import fws_grammar
-    return fws_grammar(ginfo)
+    """F-WS root cause (see props.fws_grammar): a WHITESPACE / COMMENT rule that is not declared @/$ and whose body
+    contains a sequence, a repetition or a reference to a rule OF THE GRAMMAR (pest forces such bodies atomic,
+    pest-typed does not).  References to built-ins (Unicode properties, NEWLINE, …) are harmless."""
+    sx = corpus.parse_sexp(ginfo["sexp"])
+    defined = {r[1] for r in sx[2:]}
+    for r in sx[2:]:
+        if r[1] in ("WHITESPACE", "COMMENT") and r[2] not in ("atomic", "compound"):
+            def risky(e):
+                if isinstance(e, list):
+                    if e[0] in ("seq",) + REPS:
+                        return True
+                    if e[0] == "ident" and e[1] in defined:
+                        return True
+                    return any(risky(c) for c in e[1:])
+                return False
+            if risky(r[3]):
+                return True
+    return False
 
 
 def check_C16(ctx):
